@@ -48,8 +48,8 @@ CHECKS = {
          "Closure theorems for all acyclic graphs with fuel = number of processes; the readiness check precedes every process start (skeleton fact); real workflows with one unconnected port must exit non-zero without a command or a file, RunTo runs must produce exactly the closure's tasks and files as computed by the reference evaluator.",
          "7 C16", ""),
  "C17": ("Coq proof on the FIFO producer/consumer transition system (bytes conserved for every schedule, payload and pipe capacity; computed witnesses for the one-slot deadlock, the audit-link race and the undrained re-run) + T1 conformance + T3 streaming pairs and chains with payloads around the pipe buffer and the history run / run again",
-         "Partial: byte conservation is a theorem over all schedules; absence of deadlock with 2n slots is covered by the correspondence runs (payload sizes 0 .. 200000, both exit orders) and the kernel's FIFO semantics is modelled, not verified; the audit-link race is a recorded finding (D12).",
-         "7 C17", "Liveness of the streaming pair under >= 2 slots is not yet a theorem."),
+         "Byte conservation, progress (no stuck state with >= 2 slots and pipe capacity >= 1) and termination (decreasing measure) are theorems over all schedules, payloads and pipe capacities for one producer / consumer pair; n pairs and chains are covered by the correspondence runs (payload sizes 0 .. 200000, both exit orders, two-piece writes); the kernel's FIFO semantics is modelled, not verified; the audit-link race is a recorded finding (D12).",
+         "7 C17", "The theorems are about one pair; several pairs sharing the slots are covered by the correspondence."),
  "C18": ("Coq proof about the model (one carrier per sub-stream, one task per carrier, join expansion for every length, resolvability) + T1 conformance of NewTask / createTasks + T2 join branch of formatCommand + T3 sub-streams of length 0 .. buffer+3",
          "The executable model's join branch is proved to expand to the members in order with the separator, and is tied to the code by T2 on Task.Command and by T3 runs whose output concatenates the members through the expanded placeholder; audit Upstream keys are checked on the real records.",
          "7 C18", ""),
